@@ -139,10 +139,13 @@ DEFAULTS = [None, None, ["raw", 5], ["raw", "x"], ["raw", -1], ["add", ["vw", ["
 @st.composite
 def ddl_program(draw):
     cls = draw(st.sampled_from(CTXS))
+    # the table by name, or as a Table object - which may carry an alias from the queries it also serves (DDL names a table: no alias there)
+    target = draw(st.sampled_from([["py", "nt"], ["py", "nt"], ["src", "NTA"], ["src", "NTP"]]))
+    srcs = dict(gen.SOURCES, NTA=["tbl", "nt", None, "x9"], NTP=["tbl", "nt", None, None])
     if draw(st.integers(0, 3)) == 0:
-        steps = [["drop_table", [["py", "nt"]]]] + ([["if_exists", []]] if draw(st.booleans()) else [])
-        return {"cls": cls, "sources": dict(gen.SOURCES), "steps": steps, "kind": "drop"}
-    steps = [["create_table", [["py", "nt"]]]]
+        steps = [["drop_table", [target]]] + ([["if_exists", []]] if draw(st.booleans()) else [])
+        return {"cls": cls, "sources": srcs, "steps": steps, "kind": "drop"}
+    steps = [["create_table", [target]]]
     if draw(st.integers(0, 4)) == 0:
         steps.append(["as_select", [["q", {"cls": "inherit", "sources": {}, "steps": [["from_", [["src", "T"]]], ["select", [["col", "T", "a"]]]]}]]])
     else:
@@ -159,7 +162,7 @@ def ddl_program(draw):
     for m in ("temporary", "if_not_exists", "unlogged"):
         if draw(st.integers(0, 3)) == 0:
             steps.append([m, []])
-    return {"cls": cls, "sources": dict(gen.SOURCES), "steps": steps, "kind": "create"}
+    return {"cls": cls, "sources": srcs, "steps": steps, "kind": "create"}
 
 
 @st.composite
